@@ -13,7 +13,7 @@ WRITE_WIDTH = {"write_two": 2, "write_one": 1, "write_year": 4}
 def run(chk, tier):
     P = Prog("default")
     chk.configs.add("default")
-    for r in (r_numeric, r_setters, r_fixed, r_names):
+    for r in (r_numeric, r_setters, r_fixed, r_names, r_flow):
         chk.guarded(r, P, tier)
     chk.guarded(c12.r_numeric_writers, P, tier)
     chk.assume("the round trip itself (for any value), white-space and letter-case perturbations are NOT decided; only that reader and writer agree item by item on width, sign and field")
@@ -123,3 +123,16 @@ def r_names(chk, P, tier):
     chk.expect(t["short_months"] == [m[:3] for m in months] and t["long_months"] == months, "writer months", "default-locale month tables %s" % (t["short_months"],))
     chk.expect(t["short_weekdays"] == ["Sun", "Mon", "Tue", "Wed", "Thu", "Fri", "Sat"] and t["long_weekdays"] == [days[6]] + days[:6], "writer weekdays (Sunday first)",
                "default-locale weekday tables %s" % (t["short_weekdays"],))
+
+
+def r_flow(chk, P, tier):
+    """no scanned field is dropped: the value of every value-returning scan call reaches a Parsed setter on every successful path"""
+    from fmt_tables import scanned_value_flow
+    chk.rule("FLOW.scanned", "every value a format::scan function returned Ok for is handed to a Parsed setter on each successful path (no scanned field is silently dropped)", floor=15)
+    for fn in ('format::parse::parse_internal',):
+        rows = scanned_value_flow(P, fn)
+        if not rows:
+            raise AnchorLost("no value-returning scan call found in " + fn)
+        for name, ln, ok, dropped in rows:
+            chk.expect(dropped == 0 and ok > 0, "%s: %s #%d" % (fn.split("::")[-1], name, [r_ for r_ in rows if r_[0] == name].index((name, ln, ok, dropped)) + 1),
+                       "the value scanned by scan::%s (line %s) does not reach a Parsed setter on %d of %d successful paths" % (name, ln, dropped, ok + dropped), loc=P.loc(fn, ln))
